@@ -164,15 +164,23 @@ def rule_s3(ctx):
     # eager serialisation of every element; no attribute keeps the caller's list or its elements
     ser_all = False
     alias = []
+    def serialising_comprehension(v):
+        if isinstance(v, (ast.ListComp, ast.GeneratorExp)) and len(v.generators) == 1 and A.is_name(v.generators[0].iter, lst) \
+                and not v.generators[0].ifs and isinstance(v.elt, ast.Call):
+            if core.resolve_name(A.dotted(v.elt.func) or '') == 'pickle.dumps':
+                return True
+            if isinstance(v.elt.func, ast.Name):
+                helper = [h for h in init.body if isinstance(h, A.FUNC_TYPES) and h.name == v.elt.func.id]
+                return bool(helper) and any(isinstance(x, ast.Call) and core.resolve_name(A.dotted(x.func) or '') == 'pickle.dumps'
+                                            for x in ast.walk(helper[0]))
+        return False
     for n in A.walk_local(init):
         if isinstance(n, ast.Assign) and A.is_self_attr(n.targets[0]):
             v = n.value
-            if isinstance(v, ast.ListComp) and A.is_name(v.generators[0].iter, lst) and not v.generators[0].ifs \
-                    and isinstance(v.elt, ast.Call) and isinstance(v.elt.func, ast.Name):
-                helper = [h for h in init.body if isinstance(h, A.FUNC_TYPES) and h.name == v.elt.func.id]
-                if helper and any(isinstance(x, ast.Call) and core.resolve_name(A.dotted(x.func) or '') == 'pickle.dumps'
-                                  for x in ast.walk(helper[0])):
-                    ser_all = True
+            # the serialised list itself, or something built from it (np.concatenate(serialized)), is what is stored
+            ve = flow.expand(v, init)
+            if any(serialising_comprehension(x) for x in ast.walk(ve)):
+                ser_all = True
             if A.is_name(v, lst) or (isinstance(v, ast.Call) and A.dotted(v.func) in ('list', 'tuple')
                                      and v.args and A.is_name(v.args[0], lst)):
                 alias.append(n)
